@@ -61,6 +61,79 @@ func verifC04Build(h *Header) {
 		err := h.SetExtension(id, verifBytes("ext.val", verifPick("ext.len", lens)))
 		verifAssert("setup.setext", err == nil)
 	}
+	if kind == 3 && verifCase("legacy-deleted", 0, 1) == 1 {
+		// a legacy header whose only value was deleted: an empty extension block
+		verifAssert("setup.delext", h.DelExtension(0) == nil)
+	}
+}
+
+// verifC04Contract checks one MarshalTo call against Marshal() of the same value.
+func verifC04Contract(tag string, p *Packet, d int) bool {
+	size := p.MarshalSize()
+	ref, err := p.Marshal()
+	verifAssert(tag+".ref-noerr", err == nil)
+	verifAssert(tag+".ref-size", len(ref) == size)
+	dst := verifBytes("dst", d)
+	prior := append([]byte{}, dst...)
+	n, err := p.MarshalTo(dst)
+	if d < size {
+		verifAssert(tag+".short-err", err != nil)
+		verifAssert(tag+".short-kind", errors.Is(err, io.ErrShortBuffer))
+		verifAssert(tag+".short-n", n == 0)
+		return false
+	}
+	verifAssert(tag+".noerr", err == nil)
+	verifAssert(tag+".n", n == size)
+	verifAssert(tag+".same-as-marshal", verifEqBytes(dst[:size], ref))
+	verifAssert(tag+".tail-untouched", verifEqBytes(dst[size:], prior[size:]))
+	return true
+}
+
+// a packet that has been marshaled before and whose header then changed size
+func VerifC04Remarshal() {
+	var p Packet
+	verifC04Build(&p.Header)
+	p.Payload = verifBytes("payload", verifPick("plen", verifC04Plen))
+	pad := verifPick("pad", []int{0, 2})
+	p.PaddingSize = uint8(pad)
+	p.Padding = pad != 0
+	size1 := p.MarshalSize()
+	if !verifC04Contract("C04.first", &p, size1) {
+		return
+	}
+	// change the header between the two calls
+	switch verifCase("change", 0, 2) {
+	case 0:
+		if len(p.Extensions) > 0 {
+			_ = p.DelExtension(p.Extensions[0].id)
+		}
+	case 1:
+		if p.Extension {
+			switch p.ExtensionProfile {
+			case 0xBEDE:
+				_ = p.SetExtension(14, verifBytes("newval", 3))
+			case 0x1000:
+				_ = p.SetExtension(200, verifBytes("newval", 5))
+			default:
+				_ = p.SetExtension(0, verifBytes("newval", 8))
+			}
+		} else {
+			_ = p.SetExtension(3, verifBytes("newval", 2))
+		}
+	default:
+		p.CSRC = append(p.CSRC, verifU32("newcsrc"))
+	}
+	size2 := p.MarshalSize()
+	lo, hi := size1, size2
+	if lo > hi {
+		lo, hi = hi, lo
+	}
+	if lo > 0 {
+		lo--
+	}
+	// every destination length from just below the smaller to the larger of the two sizes
+	verifC04Contract("C04.second", &p, verifCase("dst2len", lo, hi))
+	verifCover("C04.remarshal.end")
 }
 
 func VerifC04Packet() {
